@@ -265,9 +265,14 @@ def rule_catch(X, R, rule="R20-catch"):
         fn = norm(it["path"])
         # closures that are (inside) an argument of catch_panic
         guarded = set()
-        for c in exprs(h["body"], "Call"):
-            if norm(c.get("callee", "")) == "wirefilter::panic::catch_panic":
-                for x in exprs(c["args"][0], ("Call", "MethodCall")):
+        import sem
+        Sx = sem.Sem(X, h, inline=False)
+        for xs in Sx.sites():
+            c = xs.node
+            if c.get("k") == "Call" and norm(c.get("callee", "")) == "wirefilter::panic::catch_panic":
+                # the closure may be written in place or bound to a local first
+                arg = Sx.resolve(c["args"][0], xs.frame).node
+                for x in exprs(arg, ("Call", "MethodCall")):
                     guarded.add(id(x))
         for c in exprs(h["body"], ("Call", "MethodCall")):
             cal = norm(c.get("resolved") or c.get("callee") or "")
